@@ -146,6 +146,8 @@ func mutateBytes(b []byte, kind string, off int) []byte {
 		return b
 	}
 	switch kind {
+	case "zero": // an empty file (open + crash, or a full disk)
+		return []byte{}
 	case "trunc":
 		return append([]byte(nil), b[:off%len(b)]...)
 	default: // flip
@@ -199,7 +201,7 @@ func TestC19(t *testing.T) {
 			case "entry":
 				m.Kind = pickU(g, []string{"nodot", "subdir", "uuiddir", "foreignext", "empty", "symlink", "nodotuuid"}, "entrykind")
 			default:
-				m.Kind = pickU(g, []string{"tree", "tree", "tree", "trunc", "flip"}, "mutkind")
+				m.Kind = pickU(g, []string{"tree", "tree", "tree", "trunc", "flip", "zero"}, "mutkind")
 				m.Ref = g.uni(64, "mref")
 				m.Off = g.uni(1<<16, "moff")
 				m.Node = g.uni(1<<12, "mnode")
@@ -451,7 +453,14 @@ func caseC19(t TB, prog *Program) {
 	call("Control", func() error { return db.Control() })
 	call("Schema", func() error { _, err := db.Schema(&Doc{}); return err })
 	call("Count", func() error { _, err := db.Count(&Doc{}); return err })
-	call("All", func() error { _, err := db.All(&Doc{}); return err })
+	call("All", func() error {
+		all, err := db.All(&Doc{})
+		// All either fails or returns the collection: not a silent part of it
+		if n, cerr := db.Count(&Doc{}); err == nil && cerr == nil && len(all) != n {
+			e.failf("battery: the collection holds %d objects; All returned %d without error (damage: %s)", n, len(all), canon(muts))
+		}
+		return err
+	})
 	// a search over an unindexed path reads every object file: either it fails, or it has looked
 	// at every object (x >= 0 and x < 0 together cover the collection) - never a silent part of it
 	for _, p := range castable {
